@@ -646,41 +646,26 @@ theorem endsWith_iff (p s : List Char) : endsWith p s = true ↔ p <:+ s := by
   simp [endsWith, startsWith_iff, List.reverse_prefix]
 
 /-- **The default.**  Without an applicable rule an object is PRIVATE exactly when its name
-begins with an underscore and is not a dunder — where "dunder" is, literally, "begins with two
-underscores and ends with two underscores" (so `__` and `___` are dunders, hence public). -/
+begins with an underscore and is not a dunder — a dunder being a name of at least four characters
+that begins with two underscores and ends with two underscores (`__*__`; since 2e9a6af). -/
 theorem default_meaning (name : List Char) :
     defaultLevel name = .priv ↔
-      (['_'] <+: name ∧ ¬ (['_', '_'] <+: name ∧ ['_', '_'] <:+ name)) := by
+      (['_'] <+: name ∧ ¬ (4 ≤ name.length ∧ ['_', '_'] <+: name ∧ ['_', '_'] <:+ name)) := by
   simp only [defaultLevel]
-  split
-  · rename_i h
-    simp only [Bool.and_eq_true, Bool.not_eq_true', Bool.and_eq_false_iff, startsWith_iff] at h
-    refine ⟨fun _ => ⟨h.1, ?_⟩, fun _ => rfl⟩
-    rintro ⟨h1, h2⟩
-    rcases h.2 with h3 | h3
-    · have := (startsWith_iff _ _).mpr h1; simp [this] at h3
-    · have := (endsWith_iff _ _).mpr h2; simp [this] at h3
-  · rename_i h
-    refine ⟨fun e => (by cases e), fun ⟨h1, h2⟩ => ?_⟩
-    exfalso; apply h
-    simp only [Bool.and_eq_true, Bool.not_eq_true', Bool.and_eq_false_iff]
-    refine ⟨(startsWith_iff _ _).mpr h1, ?_⟩
-    by_cases h3 : startsWith ['_', '_'] name = true
-    · right
-      cases h4 : endsWith ['_', '_'] name with
-      | false => rfl
-      | true => exact absurd ⟨(startsWith_iff _ _).mp h3, (endsWith_iff _ _).mp h4⟩ h2
-    · left; simpa using h3
+  by_cases h1 : startsWith ['_'] name = true <;> by_cases hl : 4 ≤ name.length <;>
+    by_cases h2 : startsWith ['_', '_'] name = true <;> by_cases h3 : endsWith ['_', '_'] name = true <;>
+    simp [h1, hl, h2, h3, ← startsWith_iff, ← endsWith_iff]
 
 example : defaultLevel ['_', 'x'] = .priv ∧ defaultLevel ['_', '_', 'x', '_', '_'] = .pub ∧
     defaultLevel ['x'] = .pub ∧ defaultLevel ['_', '_', 'x'] = .priv ∧ defaultLevel ['_'] = .priv ∧
-    defaultLevel ['_', '_'] = .pub ∧ defaultLevel ['_', '_', '_'] = .pub := by decide
+    defaultLevel ['_', '_'] = .priv ∧ defaultLevel ['_', '_', '_'] = .priv ∧
+    defaultLevel ['_', '_', '_', '_'] = .pub := by decide
 
 /-- **The whole default** (as customize.rst states it since c8d85b0): PRIVATE for a name with a
 leading underscore that is not a dunder, and for a module named `__main__`; PUBLIC otherwise. -/
 theorem defaultOf_meaning (ob : Obj) :
     defaultOf ob = .priv ↔
-      ((['_'] <+: ob.name ∧ ¬ (['_', '_'] <+: ob.name ∧ ['_', '_'] <:+ ob.name)) ∨
+      ((['_'] <+: ob.name ∧ ¬ (4 ≤ ob.name.length ∧ ['_', '_'] <+: ob.name ∧ ['_', '_'] <:+ ob.name)) ∨
         (ob.isModule = true ∧ ob.name = mainName)) := by
   rw [← default_meaning]
   simp only [defaultOf]
@@ -795,47 +780,17 @@ def manualDefaultOf (ob : Obj) : Level :=
   else if ob.isModule && ob.name = mainName then .priv
   else .pub
 
-/-- the code's dunder test (`startswith('__') and endswith('__')`) agrees with the manual's except on
-the two names whose leading and trailing double underscore are the same characters -/
-theorem defaultLevel_eq_manual (name : List Char) (h2 : name ≠ ['_', '_']) (h3 : name ≠ ['_', '_', '_']) :
-    defaultLevel name = manualDefault name := by
-  unfold defaultLevel manualDefault
-  by_cases hl : 4 ≤ name.length
-  · simp [hl]
-  · have hs : (startsWith ['_', '_'] name && endsWith ['_', '_'] name) = false := by
-      rcases name with _ | ⟨a, _ | ⟨b, _ | ⟨c, _ | ⟨d, r⟩⟩⟩⟩
-      · simp [startsWith]
-      · simp [startsWith]
-      · by_cases ha : a = '_'
-        · by_cases hb : b = '_'
-          · subst ha hb; exact absurd rfl h2
-          · have hb' : ¬ '_' = b := fun e => hb e.symm
-            simp [startsWith, ha, hb, hb']
-        · have ha' : ¬ '_' = a := fun e => ha e.symm
-          simp [startsWith, ha, ha']
-      · by_cases ha : a = '_'
-        · by_cases hb : b = '_'
-          · by_cases hc : c = '_'
-            · subst ha hb hc; exact absurd rfl h3
-            · have hc' : ¬ '_' = c := fun e => hc e.symm
-              simp [startsWith, endsWith, ha, hb, hc, hc']
-          · have hb' : ¬ '_' = b := fun e => hb e.symm
-            simp [startsWith, ha, hb, hb']
-        · have ha' : ¬ '_' = a := fun e => ha e.symm
-          simp [startsWith, ha, ha']
-      · simp at hl
-    simp [hl, hs]
+/-- since 2e9a6af the code's default is the manual's, for every name -/
+theorem defaultLevel_eq_manual (name : List Char) : defaultLevel name = manualDefault name := rfl
 
-theorem defaultOf_eq_manual (ob : Obj) (h2 : ob.name ≠ ['_', '_']) (h3 : ob.name ≠ ['_', '_', '_']) :
-    defaultOf ob = manualDefaultOf ob := by
-  simp only [defaultOf, manualDefaultOf, defaultLevel_eq_manual ob.name h2 h3]
+theorem defaultOf_eq_manual (ob : Obj) : defaultOf ob = manualDefaultOf ob := rfl
 
-/-- `__` and `___`: PUBLIC in the code, PRIVATE by the manual (finding
-`default:underscore-only-name-public`) -/
-theorem default_counterexample :
-    defaultLevel ['_', '_'] = .pub ∧ manualDefault ['_', '_'] = .priv ∧
-    defaultLevel ['_', '_', '_'] = .pub ∧ manualDefault ['_', '_', '_'] = .priv ∧
-    defaultLevel ['_', '_', '_', '_'] = manualDefault ['_', '_', '_', '_'] := by decide
+/-- historical: before 2e9a6af `__` and `___` were PUBLIC, the manual says PRIVATE (finding
+`default:underscore-only-name-public`, fixed) -/
+theorem default_counterexample_before_2e9a6af :
+    defaultLevelBefore_2e9a6af ['_', '_'] = .pub ∧ manualDefault ['_', '_'] = .priv ∧
+    defaultLevelBefore_2e9a6af ['_', '_', '_'] = .pub ∧ manualDefault ['_', '_', '_'] = .priv ∧
+    defaultLevelBefore_2e9a6af ['_', '_', '_', '_'] = manualDefault ['_', '_', '_', '_'] := by decide
 
 /-- The property's statement, written on its own: the last rule whose text is the qualified name;
 failing that the last rule whose pattern matches (in the manual's sense); failing that the
@@ -878,16 +833,15 @@ Full statement, false of the current code:
     ∀ rules ob, (privacyClass rules [] ob).1 = .ok (specLevel rules ob)
 It fails (a) for rule lists written into `options.privacy` by hand when a rule's pattern holds a
 backwards range and is reached (`precedence_counterexample`); (b) for an object whose `kind` is
-`None` — HIDDEN before name and rules are looked at (`precedence_counterexample_kindNone`, findings
-`kind-none-hidden:*`); (c) for the names `__` and `___` when no rule applies
-(`precedence_counterexample_underscores`, finding `default:underscore-only-name-public`).
-(Until c8d85b0 it also failed for a module named `__main__`: `main_module_counterexample_before_c8d85b0`.)
+`None` — HIDDEN before name and rules are looked at (`precedence_counterexample_kindNone`; since
+6778a0a only a `@type`-only pseudo attribute is in that state: finding `kind-none-hidden:type-field-only`).
+(Until 2e9a6af it also failed for the names `__` and `___`: `default_counterexample_before_2e9a6af`;
+until c8d85b0 for a module named `__main__`: `main_module_counterexample_before_c8d85b0`.)
 -/
 /-- **Precedence, as a whole.**  With rule patterns that `re` accepts the privacy class computed is
-the one the property states, for every object that has a kind and is not called `__` or `___`. -/
+the one the property states, for every object that has a kind. -/
 theorem precedence_partial (rules : List Rule) (ob : Obj)
-    (hw : ∀ x ∈ rules, Glob.wellFormed x.pat = true) (hk : ob.kindNone = false)
-    (h2 : ob.name ≠ ['_', '_']) (h3 : ob.name ≠ ['_', '_', '_']) :
+    (hw : ∀ x ∈ rules, Glob.wellFormed x.pat = true) (hk : ob.kindNone = false) :
     (privacyClass rules [] ob).1 = .ok (specLevel rules ob) := by
   have hw' : ∀ x ∈ rules.reverse, Glob.wellFormed x.pat = true :=
     fun x hx => hw x (List.mem_reverse.mp hx)
@@ -898,17 +852,17 @@ theorem precedence_partial (rules : List Rule) (ob : Obj)
   | none =>
     cases (rules.filter (fun r => Glob.spec r.pat ob.fullName)).getLast? with
     | some r => simp
-    | none => simp [defaultOf_eq_manual ob h2 h3]
+    | none => simp [defaultOf_eq_manual ob]
 
-/-- (b) an assigned, documented module variable whose `kind` stayed `None` (a `@type` field created it
-first): HIDDEN although `PUBLIC:mod.x` names it exactly -/
+/-- (b) an object whose `kind` is `None` (a `@type`-only pseudo attribute): HIDDEN although
+`PUBLIC:m.x` names it exactly -/
 theorem precedence_counterexample_kindNone :
     (privacyClass [⟨.pub, ['m', '.', 'x']⟩] [] ⟨['m', '.', 'x'], ['x'], false, true, true⟩).1 = .ok .hidden ∧
     specLevel [⟨.pub, ['m', '.', 'x']⟩] ⟨['m', '.', 'x'], ['x'], false, true, true⟩ = .pub := by decide
 
-/-- (c) `mod.__` without any rule: PUBLIC, the manual says PRIVATE -/
-theorem precedence_counterexample_underscores :
-    (privacyClass [] [] ⟨['m', '.', '_', '_'], ['_', '_'], false, false, true⟩).1 = .ok .pub ∧
+/-- `mod.__` without any rule is PRIVATE now, as the manual says -/
+theorem underscores_private :
+    (privacyClass [] [] ⟨['m', '.', '_', '_'], ['_', '_'], false, false, true⟩).1 = .ok .priv ∧
     specLevel [] ⟨['m', '.', '_', '_'], ['_', '_'], false, false, true⟩ = .priv := by decide
 
 theorem precedence_counterexample :
@@ -981,16 +935,16 @@ theorem cli_rules_wellFormed : ∀ (vs : List (List Char)) (rules : List Rule),
         · exact cli_rules_wellFormed vs rs hvs x hx
 
 /-
-Full statement, false of the current code (see `precedence_partial`, cases (b) and (c)):
+Full statement, false of the current code (see `precedence_partial`, case (b)):
     parseRules vs = .ok rules → (privacyClass rules [] ob).1 = .ok (specLevel rules ob)
 -/
 /-- **Precedence for every `--privacy` list the option parser accepts**: no hypothesis on the
-patterns; excluded are objects whose `kind` is `None` and the names `__`, `___` (open findings). -/
+patterns or the names; excluded are only objects whose `kind` is `None` (open finding
+`kind-none-hidden:type-field-only`). -/
 theorem precedence_cli_partial (vs : List (List Char)) (rules : List Rule) (ob : Obj)
-    (h : parseRules vs = .ok rules) (hk : ob.kindNone = false)
-    (h2 : ob.name ≠ ['_', '_']) (h3 : ob.name ≠ ['_', '_', '_']) :
+    (h : parseRules vs = .ok rules) (hk : ob.kindNone = false) :
     (privacyClass rules [] ob).1 = .ok (specLevel rules ob) :=
-  precedence_partial rules ob (cli_rules_wellFormed vs rules h) hk h2 h3
+  precedence_partial rules ob (cli_rules_wellFormed vs rules h) hk
 
 /-- **With a `--privacy` list the option parser accepts, `privacyClass` never raises** — for any
 object and any cache state (the `re.error` of the former finding is unreachable from the CLI). -/
@@ -1642,10 +1596,9 @@ theorem effective_file_only (cfg : List (List Char)) : parseEffective [] cfg = p
 
 /-- precedence for the rule list a run is really given (file and command line combined) -/
 theorem precedence_effective_partial (cli cfg : List (List Char)) (rules : List Rule) (ob : Obj)
-    (h : parseEffective cli cfg = .ok rules) (hk : ob.kindNone = false)
-    (h2 : ob.name ≠ ['_', '_']) (h3 : ob.name ≠ ['_', '_', '_']) :
+    (h : parseEffective cli cfg = .ok rules) (hk : ob.kindNone = false) :
     (privacyClass rules [] ob).1 = .ok (specLevel rules ob) :=
-  precedence_cli_partial _ rules ob h hk h2 h3
+  precedence_cli_partial _ rules ob h hk
 
 /-! ### hidden containers -/
 
@@ -1753,22 +1706,25 @@ theorem kindNone_hidden (rules : List Rule) (c : Cache) (ob : Obj) (hk : ob.kind
 example : (privacyClass [⟨.pub, ['m', '.', 'k']⟩] [] ⟨['m', '.', 'k'], ['k'], false, true, true⟩).1 = .ok .hidden := by
   decide
 
-/-- (2) names made of underscores only: `_` is private, `__`, `___`, `____`, … are public (they
-begin and end with two underscores, which is all the code asks of a dunder) -/
+/-- (2) names made of underscores only: `_`, `__`, `___` are private; `____`, `_____`, … are
+dunders (`__*__` with an all-underscore middle) and public (since 2e9a6af) -/
 theorem bare_underscores (n : Nat) :
-    defaultLevel (List.replicate n '_') = if n = 1 then .priv else .pub := by
+    defaultLevel (List.replicate n '_') = if 1 ≤ n ∧ n ≤ 3 then .priv else .pub := by
   match n with
   | 0 => decide
   | 1 => decide
-  | k + 2 =>
-    have h1 : startsWith ['_', '_'] (List.replicate (k + 2) '_') = true := by
+  | 2 => decide
+  | 3 => decide
+  | k + 4 =>
+    have h1 : startsWith ['_', '_'] (List.replicate (k + 4) '_') = true := by
       simp [List.replicate_succ, startsWith]
-    have h2 : endsWith ['_', '_'] (List.replicate (k + 2) '_') = true := by
+    have h2 : endsWith ['_', '_'] (List.replicate (k + 4) '_') = true := by
       simp only [endsWith, List.reverse_replicate]
       simp [List.replicate_succ, startsWith]
-    have h0 : startsWith ['_'] (List.replicate (k + 2) '_') = true := by
+    have h0 : startsWith ['_'] (List.replicate (k + 4) '_') = true := by
       simp [List.replicate_succ, startsWith]
-    simp [defaultLevel, h0, h1, h2]
+    have hn : ¬ (k + 4 ≤ 3) := by omega
+    simp [defaultLevel, h0, h1, h2, hn]
 
 /-- (4) the cache is never invalidated: once an object has been asked, a different rule list (an
 `options.privacy` replaced through the API after the first query; the command line cannot do that,
